@@ -42,6 +42,8 @@ def fresh_of(ex, st, shape, name):
         return v
     if shape == "bool":
         return fresh(name, B)
+    if shape == "const0":
+        return iv(0)
     if shape == "false":
         return z3.BoolVal(False)
     if shape == "true":
@@ -67,7 +69,7 @@ def fresh_of(ex, st, shape, name):
             st.assume(s.forall(lambda v: z3.Or(v == 0, v == 1)))
         return s
     if shape.startswith("mat(") and shape.endswith(")"):
-        r_, c_ = shape[4:-1].split(",")
+        r_, c_ = shape[4:-1].rsplit(",", 1)
         rows = ex.spec_eval(r_, st)
         cols = ex.spec_eval(c_, st)
         return Mat(fresh(name, A2), rows, cols)
